@@ -3,13 +3,17 @@ package vh
 // Reference re-implementation of internal/eval/partial.go on top of the PUBLIC API only
 // (x/exp/ast node structs + x/exp/eval.Eval for "evaluate this operator over literal children").
 //
-// With the zero RefCfg it is meant to reproduce the implementation bit for bit (residual AST and
-// keep/drop); the C06/C05 oracles check that (Go-vs-Go white-box comparison) before they trust it.
-// Each switch of RefCfg applies ONE candidate repair, so that a property failure observed on the real
-// code can be classified causally: "the failure disappears exactly when repair X is applied" — that is
-// how the narrow finding classes (stale-residual-and, tainted-container-contains, …) are computed.
-// The evaluator also records Events: which of the known-unsound situations were exercised, whether or
-// not they led to an observable failure (evidence: cases inside / outside the known-unsound regions).
+// With the zero RefCfg it reproduces partial.go AS IT WAS BEFORE the four defect families were repaired
+// (stale-residual-*, isin-eager-rhs-error, tainted-*), with RepairedCfg() the code as repaired — bit for bit
+// (residual AST and keep/drop); the C06/C05 oracles first find out which of BaseCfgs() reproduces the
+// implementation under test (Go-vs-Go white-box comparison) before they trust it.
+// Each switch of RefCfg applies ONE repair, so that a property failure observed on the real code can be
+// classified causally: "the failure disappears exactly when repair X is applied" — that is how the narrow
+// finding classes (stale-residual-and, tainted-container-contains, …) are computed.  The classes of the
+// repaired families are listed as "fixed" in known_findings: if a defect returns, the oracle fails, the
+// classification names it and the check reports a VIOLATION.
+// The evaluator also records Events: which of the situations of those families were exercised, whether or
+// not they led to an observable failure.
 
 import (
 	"encoding/json"
@@ -158,6 +162,9 @@ func (c RefCfg) String() string {
 		}
 	}
 	sort.Strings(ts)
+	if c.TaintAll {
+		ts = append(ts, "tainted-*")
+	}
 	return fmt.Sprint(append(xs, ts...))
 }
 
@@ -220,9 +227,11 @@ func (r *Ref) try(orig []ast.IsNode, op string, mk func([]ast.IsNode) ast.IsNode
 		} else if p.k != pkOK {
 			return p
 		}
-		if v, isVal := p.n.(ast.NodeValue); isVal && !allowTainted && Tainted(v.Value) {
+		if v, isVal := p.n.(ast.NodeValue); isVal && !allowTainted && ContainsVar(v.Value) {
 			cls := "tainted-" + containerKind(v.Value) + "-" + op
-			r.event(cls)
+			if Tainted(v.Value) {
+				r.event(cls)
+			}
 			if r.Cfg.Taint[cls] || r.Cfg.TaintAll {
 				// repair: an operand that contains an unknown is unknown — keep the original sub-expression
 				ok = false
@@ -403,6 +412,19 @@ func isBoolVal(n ast.IsNode, want bool) bool {
 	return ok && bool(b) == want
 }
 
+// embedded handles a node about to be embedded in a residual by partialAnd/Or/IfThenElse/IsIn: before the repair of
+// the tainted-* family a literal that merely contains an unknown was embedded as it is; the repair keeps `orig`.
+func (r *Ref) embedded(n ast.IsNode, orig ast.IsNode, where string) ast.IsNode {
+	if v, isVal := n.(ast.NodeValue); isVal && ContainsVar(v.Value) {
+		cls := "tainted-embedded-" + where
+		r.event(cls)
+		if r.Cfg.Taint[cls] || r.Cfg.TaintAll {
+			return orig
+		}
+	}
+	return n
+}
+
 // stale handles "(node, errVariable)" reaching partialAnd/Or/IfThenElse: the code keeps `node`; the repair keeps `orig`.
 func (r *Ref) stale(p pres, orig ast.IsNode, cls string, repaired bool) ast.IsNode {
 	if !sameNode(p.n, orig) {
@@ -437,6 +459,8 @@ func (r *Ref) ite(v ast.NodeTypeIfThenElse) pres {
 		thenNode = extErr(t.err)
 	} else if t.k == pkVar {
 		thenNode = r.stale(t, v.Then, "stale-residual-if", r.Cfg.StaleIf)
+	} else {
+		thenNode = r.embedded(thenNode, v.Then, "if")
 	}
 	e := r.partial(v.Else)
 	elseNode := e.n
@@ -446,6 +470,8 @@ func (r *Ref) ite(v ast.NodeTypeIfThenElse) pres {
 		elseNode = extErr(e.err)
 	} else if e.k == pkVar {
 		elseNode = r.stale(e, v.Else, "stale-residual-if", r.Cfg.StaleIf)
+	} else {
+		elseNode = r.embedded(elseNode, v.Else, "if")
 	}
 	return pres{n: ast.NodeTypeIfThenElse{If: ifNode, Then: thenNode, Else: elseNode}, k: pkOK}
 }
@@ -473,6 +499,8 @@ func (r *Ref) and(v ast.NodeTypeAnd) pres {
 		right = extErr(rr.err)
 	} else if rr.k == pkVar {
 		right = r.stale(rr, v.Right, "stale-residual-and", r.Cfg.StaleAnd)
+	} else {
+		right = r.embedded(right, v.Right, "and")
 	}
 	return pres{n: ast.NodeTypeAnd{BinaryNode: ast.BinaryNode{Left: left, Right: right}}, k: pkOK}
 }
@@ -500,48 +528,68 @@ func (r *Ref) or(v ast.NodeTypeOr) pres {
 		right = extErr(rr.err)
 	} else if rr.k == pkVar {
 		right = r.stale(rr, v.Right, "stale-residual-or", r.Cfg.StaleOr)
+	} else {
+		right = r.embedded(right, v.Right, "or")
 	}
 	return pres{n: ast.NodeTypeOr{BinaryNode: ast.BinaryNode{Left: left, Right: right}}, k: pkOK}
 }
 
-// isIn: the code treats `e is T in r` as a strict binary operator (tryPartial over [e, r]), although the
-// evaluator short-circuits when the type test fails.  Event + optional repair.
+// isIn: before its repair the code treated `e is T in r` as a strict binary operator (tryPartial over [e, r]),
+// although the evaluator short-circuits when the type test fails (event isin-eager-rhs-error).  With IsInLazy it
+// mirrors partialIsIn: a literal left operand decides the type test; only when the test passes is the operator strict
+// in r; while the test is undecided an error of r stays in the residual.
 func (r *Ref) isIn(v ast.NodeTypeIsIn) pres {
 	mk := func(ns []ast.IsNode) ast.IsNode {
 		return ast.NodeTypeIsIn{NodeTypeIs: ast.NodeTypeIs{Left: ns[0], EntityType: v.EntityType}, Entity: ns[1]}
 	}
-	// would the right operand's error escape although the type test may fail?
-	l := r.probe(v.Left)
-	if l.k == pkOK || l.k == pkVar {
+	// would the right operand's error escape (strict treatment) although the type test may fail?
+	lp := r.probe(v.Left)
+	if lp.k == pkOK || lp.k == pkVar {
 		typeKnownToMatch := false
-		typeKnownToFail := false
-		if lv, isVal := l.n.(ast.NodeValue); isVal && l.k == pkOK {
+		if lv, isVal := lp.n.(ast.NodeValue); isVal && lp.k == pkOK {
 			if e, isEnt := lv.Value.(types.EntityUID); isEnt {
 				typeKnownToMatch = e.Type == v.EntityType
-				typeKnownToFail = !typeKnownToMatch
 			}
 		}
 		if !typeKnownToMatch {
-			rr := r.probe(v.Entity)
-			if rr.k == pkErr || rr.k == pkIgn {
-				if rr.k == pkErr {
-					r.event("isin-eager-rhs-error")
-				}
-				if r.Cfg.IsInLazy && rr.k == pkErr {
-					if typeKnownToFail {
-						return pres{n: ast.NodeValue{Value: types.False}, k: pkOK}
-					}
-					lp := r.partial(v.Left)
-					ln := lp.n
-					if lp.k == pkVar {
-						ln = v.Left
-					}
-					return pres{n: mk([]ast.IsNode{ln, extErr(rr.err)}), k: pkOK}
-				}
+			if rr := r.probe(v.Entity); rr.k == pkErr {
+				r.event("isin-eager-rhs-error")
 			}
 		}
 	}
-	return r.try([]ast.IsNode{v.Left, v.Entity}, "isIn", mk, nil)
+	if !r.Cfg.IsInLazy {
+		return r.try([]ast.IsNode{v.Left, v.Entity}, "isIn", mk, nil)
+	}
+	l := r.partial(v.Left)
+	left := l.n
+	switch {
+	case l.k == pkVar:
+		left = v.Left
+	case l.k != pkOK:
+		return l
+	}
+	if lv, isVal := left.(ast.NodeValue); isVal {
+		ent, isEnt := lv.Value.(types.EntityUID)
+		if !isEnt {
+			return pres{k: pkErr, err: fmt.Errorf("%w: expected (entity of type `any_entity_type`)", eval.ErrType)}
+		}
+		if ent.Type != v.EntityType {
+			return pres{n: ast.NodeValue{Value: types.False}, k: pkOK}
+		}
+		return r.try([]ast.IsNode{left, v.Entity}, "isIn", mk, nil)
+	}
+	rr := r.partial(v.Entity)
+	right := rr.n
+	if rr.k == pkIgn {
+		return rr
+	} else if rr.k == pkErr {
+		right = extErr(rr.err)
+	} else if rr.k == pkVar {
+		right = v.Entity
+	} else {
+		right = r.embedded(right, v.Entity, "isIn")
+	}
+	return pres{n: mk([]ast.IsNode{left, right}), k: pkOK}
 }
 
 // probe evaluates without recording events (used for look-ahead only).
@@ -737,24 +785,49 @@ func CandidateRepairs(events map[string]int) []string {
 	return out
 }
 
-// CfgWith builds the configuration applying the named repairs.
-func CfgWith(names []string) RefCfg {
-	c := RefCfg{Taint: map[string]bool{}}
+// With returns the configuration c plus the named repairs.
+func (c RefCfg) With(names []string) RefCfg {
+	out := c
+	out.Taint = map[string]bool{}
+	for k, v := range c.Taint {
+		out.Taint[k] = v
+	}
 	for _, n := range names {
 		switch n {
 		case "stale-residual-and":
-			c.StaleAnd = true
+			out.StaleAnd = true
 		case "stale-residual-or":
-			c.StaleOr = true
+			out.StaleOr = true
 		case "stale-residual-if":
-			c.StaleIf = true
+			out.StaleIf = true
 		case "isin-eager-rhs-error":
-			c.IsInLazy = true
+			out.IsInLazy = true
 		default:
-			c.Taint[n] = true
+			out.Taint[n] = true
 		}
 	}
-	return c
+	return out
+}
+
+// CfgWith builds the configuration applying the named repairs to the code as it was before any repair.
+func CfgWith(names []string) RefCfg { return RefCfg{}.With(names) }
+
+// RepairedCfg is partial.go as repaired: every switch on.
+func RepairedCfg() RefCfg {
+	return RefCfg{StaleAnd: true, StaleOr: true, StaleIf: true, IsInLazy: true, TaintAll: true}
+}
+
+// BaseCfgs lists the configurations an implementation under test is compared with, most likely first: the
+// repaired code, the repaired code with ONE family reverted (a returning defect is then named precisely),
+// and the code before any repair.
+func BaseCfgs() []RefCfg {
+	noStale := RepairedCfg()
+	noStale.StaleAnd, noStale.StaleOr, noStale.StaleIf = false, false, false
+	noIsIn := RepairedCfg()
+	noIsIn.IsInLazy = false
+	noTaint := RepairedCfg()
+	noTaint.TaintAll = false
+	return []RefCfg{RepairedCfg(), noStale, noIsIn, noTaint, {}}
 }
 
 // Subsets enumerates the non-empty subsets of names by increasing size (at most 2^len, len is tiny).
